@@ -11,5 +11,8 @@ CONSTANTS
   Modes = {"silent"}
   Pieces = {0}
   GivenFile = ""
+  MaxCalls = 1
+  LaterModes = {"silent"}
+  FreshPerCall = TRUE
 INVARIANTS TypeOK CountExact SilentStillCounts PrefixDeliveredAnyWriter
 CHECK_DEADLOCK FALSE
